@@ -80,8 +80,8 @@ Ltac step_cases Hs :=
   try discriminate; inversion Hs; subst; clear Hs.
 
 Ltac gsimpl :=
-  cbn [activated triggered mT mA slT slA now act_stamp act_clear deact_stamp clear_stamp trig_stamp rexit_stamp nact
-       tick set_mT set_mA set_slT set_slA do_clear do_trig do_act do_deact do_rexit
+  cbn [activated triggered mT mA slT slA now act_stamp act_clear deact_stamp clear_stamp trig_stamp rexit_stamp nact ntfT ntfA
+       tick set_mT set_mA set_slT set_slA do_clear do_trig do_act do_deact do_rexit do_ntfT do_ntfA
        prog at_ sclr slp fslp myclr] in *.
 
 (* ---------- invariant 1: the two mutexes and the two sleeper lists ---------- *)
